@@ -202,6 +202,11 @@ func gen(t *rapid.T) Case {
 	o.Typedefs = rapid.IntRange(0, 3).Draw(t, "typedefs") == 0
 	set, _ := schema.Generate(t, o)
 	schema.AddAugments(t, set, 0, 3)
+	if rapid.IntRange(0, 5).Draw(t, "augment-chain") == 0 {
+		// a chain of augments over new modules (or a module and its submodules taking turns), named and written
+		// in another order than the chain
+		schema.AddAugmentChain(t, set)
+	}
 	if rapid.IntRange(0, 2).Draw(t, "late") == 0 {
 		// augments of the implicit case of a shorthand choice member and of what lies below it
 		schema.AddLateAugments(t, set, 2)
